@@ -1,7 +1,7 @@
 #!/bin/bash
 # usage: tools/soak.sh "<props>" "<seeds>" [tier]   -- runs checks on the current tree over several seeds, prints anything not OK
 props=$1; seeds=$2; tier=${3:-quick}
-cd /verif
+cd "$(dirname "$0")/.."
 for s in $seeds; do for p in $props; do
   out=$(VERIF_SEED=$s ./check $p --tier $tier 2>&1 | grep -E "^(OK|VIOLATION|KNOWN|  detail)" | head -4)
   case "$out" in OK*) echo "ok $p seed=$s";; *) echo "!! $p seed=$s: $out";; esac
